@@ -38,6 +38,9 @@ type RemotePkg struct {
 	Files   map[string]string `json:"files"`
 	Content int               `json:"content_id"` // packages with the same id have identical Files and Deps
 	Commit  string            `json:"commit,omitempty"`
+	// MetaMode "" = metadata iff Commit is set; "message-only" / "empty" make
+	// the fetcher return metadata without a commit id (used by C09 only).
+	MetaMode string `json:"meta_mode,omitempty"`
 	Message string            `json:"message,omitempty"`
 	// Deps[location+"|"+finder] lists the dependencies declared at a module location
 	Deps map[string][]Dep `json:"deps,omitempty"`
